@@ -105,3 +105,16 @@ pub proof fn c13_inj_create_user(u: Seq<u8>, pw: Seq<u8>, st: UserStatus, pb: Op
         enc_cu_frame(u, pw, st, pb) == enc_cu_frame(u2, pw2, st2, pb2),
     ensures u == u2, pw == pw2, st == st2, pb == pb2,
 { lemma_cu_frame_injective(u, pw, st, pb, u2, pw2, st2, pb2); }
+// label: C13.inj.FlushUnsavedBuffer
+pub proof fn c13_inj_flush(a: FlushUnsavedBuffer, b: FlushUnsavedBuffer)
+    requires flush_valid(a), flush_valid(b), enc_flush(a) == enc_flush(b),
+    ensures flush_eq(a, b),
+{ lemma_flush_injective(a, b); }
+// label: C13.inj.Message
+// a buffer starts with at most one message frame (whatever follows): the fields and the rest are determined
+pub proof fn c13_inj_message(id: u128, hb: Seq<u8>, length: u32, payload: Seq<u8>, rest: Seq<u8>, id2: u128, hb2: Seq<u8>, length2: u32, payload2: Seq<u8>, rest_2: Seq<u8>)
+    requires
+        hb.len() <= u32::MAX, hb2.len() <= u32::MAX, length == payload.len(), length2 == payload2.len(),
+        enc_msg(id, hb, length, payload) + rest == enc_msg(id2, hb2, length2, payload2) + rest_2,
+    ensures id == id2, hb == hb2, length == length2, payload == payload2, rest == rest_2,
+{ lemma_msg_prefix_free(id, hb, length, payload, rest, id2, hb2, length2, payload2, rest_2); }
